@@ -271,6 +271,25 @@ func (ns *netState) reorg(i int, step func(int, hnet.MineOpts) bool) bool {
 			return false
 		}
 	}
+	// the abandoned branch should contain a block whose undo list has several entries for one existing
+	// lockup record; when and how the coinbase ETXs are released varies, so extend the branch (bounded)
+	multiOnA := func() bool {
+		for b := x.idx[n.Heads()[2].Hash()]; b != nil && b.hash != anc[2].Hash(); b = x.idx[b.parent] {
+			if x.multiAccum[b.hash] {
+				return true
+			}
+		}
+		return false
+	}
+	for extra := 0; extra < 6 && !multiOnA(); extra++ {
+		if !step(i, hnet.MineOpts{WantOrder: 2}) {
+			return false
+		}
+		ka++
+	}
+	if multiOnA() {
+		x.m.Eval("rollback-over-block-with-several-accumulations-into-one-existing-record", n.Heads()[2].Hash().Hex())
+	}
 	creditsA, accumA := x.creditsSeen-c0, x.accumSeen-a0
 	tipA := n.Heads()[2]
 	n.SetTips(anc)
@@ -458,5 +477,5 @@ func TestC13(t *testing.T) {
 	m.Need("emission:single-share:quai", "credited:coinbase:byte0:miner", "credited:coinbase:byte1:miner", "credited:coinbase:byte2:miner", "credited:coinbase:byte3:miner",
 		"lockup-record-matches", "credited:qi-to-quai-conversion:new-account:conversion-recipient", "credited:qi-to-quai-conversion:conversion-recipient",
 		"credited:claim-etx:claim-recipient", "claim-refused:latest-epoch", "claim-refused:non-owner", "claim-refused:before-tranche-height", "claim-refused:no-record", "claim-refused:no-record:claimed-earlier-in-this-block",
-		"emission:with-shares:all-rewarded", "reorg-across-unlock-heights", "reorg-across-lockup-accumulation", "rollback:lockup-record-compared", "reorged-vs-fresh-node:lockup-records", "block-repeating-uncle:same-block", "claim-in-failing-tx", "claim:owner-after-unlock:paid-exact-balance-once", "share-resubmitted-after-inclusion", "early-spend-of-locked-output:refused-by-pool", "qi-reward-output-spent:after-lock")
+		"emission:with-shares:all-rewarded", "reorg-across-unlock-heights", "reorg-across-lockup-accumulation", "rollback-over-block-with-several-accumulations-into-one-existing-record", "rollback:lockup-record-compared", "reorged-vs-fresh-node:lockup-records", "block-repeating-uncle:same-block", "claim-in-failing-tx", "claim:owner-after-unlock:paid-exact-balance-once", "share-resubmitted-after-inclusion", "early-spend-of-locked-output:refused-by-pool", "qi-reward-output-spent:after-lock")
 }
